@@ -88,8 +88,19 @@ func (r *Run) Unresolved(anchor string) {
 // Min asserts a minimum instance count for a rule.
 func (r *Run) Min(what string, got, min int) {
 	r.Analysed[what] = got
-	if got < min {
-		r.Failures = append(r.Failures, fmt.Sprintf("BELOW-MINIMUM %s: found %d, confirmed minimum %d", what, got, min))
+	// min is the instance count confirmed by reading the tree the rule was written on.  The guard is
+	// against a rule that has lost its subject (it would pass vacuously), not against sibling sites
+	// being merged by a refactoring: it trips when fewer than half of the confirmed instances (and in
+	// any case when none) are found.
+	thr := (min + 1) / 2
+	if thr < 1 {
+		thr = 1
+	}
+	if min <= 0 {
+		thr = 0
+	}
+	if got < thr {
+		r.Failures = append(r.Failures, fmt.Sprintf("BELOW-MINIMUM %s: found %d, confirmed %d (threshold %d)", what, got, min, thr))
 	}
 }
 
